@@ -546,6 +546,36 @@ fn mt920() -> Model {
         ("34F-in-last", s(&["none", "one-no-mark", "one-D", "one-C", "two-D-C", "two-C-D", "two-no-marks", "two-D-C-other-ccy"])),
     ];
     let render = move |l: Labels| -> Value {
+        // through the MT text where the parser accepts it: which slot a lone 34F lands in is the parser's decision
+        {
+            let n: usize = l[0].parse().unwrap();
+            let mut text = String::from(":20:REF1");
+            for i in 0..n {
+                let last = i + 1 == n;
+                text.push_str(&format!("\n:12:{}\n:25:/ACC1", if last { l[1] } else { "940" }));
+                if last {
+                    let lines: &[&str] = match l[2] {
+                        "one-no-mark" => &["EUR100,"],
+                        "one-D" => &["EURD100,"],
+                        "one-C" => &["EURC100,"],
+                        "two-D-C" => &["EURD100,", "EURC50,"],
+                        "two-C-D" => &["EURC100,", "EURD50,"],
+                        "two-no-marks" => &["EUR100,", "EUR50,"],
+                        "two-D-C-other-ccy" => &["EURD100,", "USDC50,"],
+                        _ => &[],
+                    };
+                    for x in lines {
+                        text.push_str(&format!("\n:34F:{x}"));
+                    }
+                }
+            }
+            if let Some(ops) = msg("920")
+                && let Ok(Ok(b)) = guard(|| (ops.parse_b4)(&text))
+                && let Ok(j) = b.json()
+            {
+                return j;
+            }
+        }
         let mut j = base.clone();
         let n: usize = l[0].parse().unwrap();
         let proto = j["#"][0].clone();
@@ -697,11 +727,23 @@ fn mt942() -> Model {
             "two-no-marks" => ("EUR100,", Some("EUR50,")),
             _ => ("EURD100,", Some("EURC50,")),
         };
-        j["34F_debit"] = fj("Field34F", a);
-        match b {
-            Some(x) => j["34F_credit"] = fj("Field34F", x),
-            None => {
-                j.as_object_mut().unwrap().remove("34F_credit");
+        // through the MT text where the parser accepts it (the parser decides the slot of each 34F)
+        let text = format!(
+            ":20:REF1\n:25:/ACC1\n:28C:1/1\n:34F:{a}{}\n:13D:2506151200+0100\n:61:250615C10,00NTRFREF1\n:90D:1EUR10,00\n:90C:2EUR20,00",
+            b.map(|x| format!("\n:34F:{x}")).unwrap_or_default()
+        );
+        if let Some(ops) = msg("942")
+            && let Ok(Ok(pb)) = guard(|| (ops.parse_b4)(&text))
+            && let Ok(pj) = pb.json()
+        {
+            j = pj;
+        } else {
+            j["34F_debit"] = fj("Field34F", a);
+            match b {
+                Some(x) => j["34F_credit"] = fj("Field34F", x),
+                None => {
+                    j.as_object_mut().unwrap().remove("34F_credit");
+                }
             }
         }
         j["90D"]["currency"] = json!(if l[1] == "debits" { "USD" } else { "EUR" });
@@ -1431,6 +1473,27 @@ pub fn judge(case: &Case, l: &mut Local) {
     if case.modelled.is_empty() {
         for c in &got {
             v(l, &case.mt, c, "spurious", format!("MT{}: the type documents no network rule, yet code {c} is reported", case.mt), case);
+        }
+    }
+    // the same point through its MT text (where the text parses): what the parser builds from the text must
+    // validate to the same modelled codes (a parser that files a field in another slot changes the verdict)
+    if !case.modelled.is_empty()
+        && let Ok(text) = guard(|| body.to_mt())
+        && let Ok(Ok(b2)) = guard(|| (ops.parse_b4)(&text))
+        && b2.json().ok() == body.json().ok()
+        && let Ok(errs2) = guard(|| b2.validate(false))
+    {
+        l.count("text-route-judged", 1);
+        let got2: BTreeSet<String> = errs2.iter().map(|e| e.error_code().to_string()).collect();
+        for c in &case.modelled {
+            if exp.contains(&format!("?{c}")) {
+                continue;
+            }
+            match (exp.contains(c), got2.contains(c)) {
+                (true, false) => v(l, &case.mt, c, "missing-after-text-route", format!("MT{}: the message violates the rule with code {c} (point {:?}); validated from its JSON the code is {}, validated after serialising to MT text and parsing again it is not reported; reported: {:?}", case.mt, case.point, if got.contains(c) { "reported" } else { "not reported either" }, got2), case),
+                (false, true) => v(l, &case.mt, c, "spurious-after-text-route", format!("MT{}: code {c} is reported after serialising the message to MT text and parsing it again although the message satisfies that rule (point {:?})", case.mt, case.point), case),
+                _ => {}
+            }
         }
     }
     // C13 coherence on the same message (full envelope needed: wrap the body in a corpus envelope)
